@@ -5,7 +5,7 @@
   do_wordcount (ASCII), the unit selection of do_filesizeformat; the try/except structure of do_int / do_float over
   Gen/ConvertTable.lean, which is regenerated from filters.py and re-measured on every run).
 
-  Every theorem is for ALL strings / arguments (no bounds) except `convert_total_except_known` and
+  Every theorem is for ALL strings / arguments (no bounds) except `convert_total`, `escapingRows_nil` and
   `convert_default_on_failure`, which are finite-table theorems over the regenerated Gen data (re-proved by `decide`
   on every run, so a change of the except clauses that lets another class escape breaks the proof).
 
@@ -679,39 +679,20 @@ theorem doFloat_escapes (handler : List String) (r : Row) (mro : List String)
     (h : r.flt = .raises mro) (hc : catches handler mro = false) : (doFloat handler r).isRaise = true := by
   unfold doFloat; rw [h]; simp only [hc, Bool.false_eq_true, if_false]; rfl
 
-/-- what `|int` / `|float` do on a row of the measured table, with the handlers read from filters.py -/
-def intOut (r : Row) : ConvOut := doInt intOuterCaught intInnerCaught r
-def floatOut (r : Row) : ConvOut := doFloat floatCaught r
-
-/-- the full-strength statement: for every sampled value class neither filter lets an exception out.
-    FALSE on the present source (finding F7, `Findings/F7.lean` proves the negation). -/
+/-- the full-strength statement: for every sampled value class (row of the measured table: value × base) neither filter
+    lets an exception out — every class raised by `int(x[, base])`, `int(float(x))`, `float(x)` is caught by the handlers
+    read from `do_int` / `do_float`, so a value or the default is returned.  (`intOut`/`floatOut`: Model/FiltStr.lean.) -/
 def ConvertTotal : Prop := ∀ r ∈ rows, (intOut r).isRaise = false ∧ (floatOut r).isRaise = false
 
-/-- the rows on which an exception is known to escape today (finding F7): (filter, sample, exception class).
-    Every entry is `OverflowError`; any other escaping class, or any other sample, breaks the theorem below. -/
-def knownUncaught : List (String × String × String) :=
-  [("int", "float-inf", "OverflowError"), ("int", "float-neginf", "OverflowError"), ("int", "decimal-inf", "OverflowError"),
-   ("float", "hugeint", "OverflowError"), ("float", "hugeint-neg", "OverflowError"),
-   ("float", "hugeint-2pow1024", "OverflowError"), ("float", "int-below-2pow1024", "OverflowError"),
-   ("float", "fraction-huge", "OverflowError")]
-
-/-- an outcome is acceptable if nothing is raised, or it is one of the listed known rows -/
-def acceptable (filt : String) (r : Row) : ConvOut → Bool
-  | .raises c => knownUncaught.contains (filt, r.name, c)
-  | _ => true
-
-/-- counterexample finder (twin of the theorem): rows on which an exception escapes that is not a listed finding -/
-def unexpectedEscapes : List (String × String × Int × ConvOut) :=
-  rows.flatMap fun r =>
-    (if acceptable "int" r (intOut r) then [] else [("int", r.name, r.base, intOut r)]) ++
-    (if acceptable "float" r (floatOut r) then [] else [("float", r.name, r.base, floatOut r)])
-
-/-- `convert_total` up to the known finding: on every row of the measured table (value class × base) every exception
-    class raised by `int(x[, base])`, `int(float(x))`, `float(x)` is caught by the handlers read from `do_int` /
-    `do_float`, and the default is returned — except exactly the listed `OverflowError` rows. -/
-theorem convert_total_except_known :
-    ∀ r ∈ rows, acceptable "int" r (intOut r) = true ∧ acceptable "float" r (floatOut r) = true := by
+/-- `convert_total`, at full strength since the repair of finding F7 (/repo 15bb75e: `OverflowError` is caught): re-proved
+    by `decide` over the regenerated Gen table on every run; a handler that lets any class escape on any row breaks it. -/
+theorem convert_total : ConvertTotal := by
+  unfold ConvertTotal
   decide +kernel
+
+/-- the counterexample finder (served by the driver as `(fs conv-escapes)`; the runner replays its rows on the real
+    code when this stops proving) finds nothing -/
+theorem escapingRows_nil : escapingRows = [] := by decide +kernel
 
 /-- on every row where the conversions themselves fail with a caught class, the result is the default (not a value) -/
 theorem convert_default_on_failure :
@@ -725,6 +706,10 @@ example : doFloat ["TypeError", "ValueError"]
     ⟨"x", "hugeint", 10, .ok, .raises ["OverflowError", "ArithmeticError"], .raises ["OverflowError"]⟩ = .raises "OverflowError" := by decide
 example : doFloat ["TypeError", "ArithmeticError"]
     ⟨"x", "hugeint", 10, .ok, .raises ["OverflowError", "ArithmeticError"], .raises ["OverflowError"]⟩ = .default := by decide
+-- not vacuous for the formerly failing samples: they are rows of the table, the conversions do raise OverflowError
+example : (rows.any fun r => r.name == "float-inf" && (match r.int1 with | .raises m => m.contains "OverflowError" | .ok => false)) = true ∧
+    (rows.any fun r => r.name == "hugeint" && (match r.flt with | .raises m => m.contains "OverflowError" | .ok => false)) = true := by
+  decide +kernel
 example : (rows.any fun r => floatOut r == .default) = true ∧ (rows.any fun r => intOut r == .default) = true ∧
     (rows.any fun r => intOut r == .value && r.int1 != .ok) = true := by decide +kernel
 
